@@ -18,7 +18,8 @@ Families
             parent (same ISD), parent relation acyclic.  |T(2)|=5 |T(3)|=28 |T(4)|=311.
   T(k)+par  members of T(k) with one core/parent link doubled (parallel link).
   shapes    named 4..6-AS shapes (diamond, shortcut-Y, peering-H, two-ISD bridge, inverted core ...)
-  random    seeded random larger valid topologies (used by the trace-validation tier)
+  random    seeded random larger valid topologies (used by the trace-validation tier); rich=True guarantees a
+            peering link between non-core ASes and a parallel link
 
 usage: topologies.py family <k> [--parallel] | shapes | random <n> <seed> [<min_as> <max_as>]
 """
@@ -249,7 +250,7 @@ class Rng:
         return self.below(b) < a
 
 
-def random_topology(rng, name, nmin, nmax):
+def random_topology(rng, name, nmin, nmax, rich=False):
     k = nmin + rng.below(nmax - nmin + 1)
     nisd = 1 + rng.below(min(3, max(1, k // 3)))
     isds, cores = [], []
@@ -289,6 +290,19 @@ def random_topology(rng, name, nmin, nmax):
         b = 1 + rng.below(k)
         if a != b and not (cores[a - 1] and cores[b - 1] and rng.chance(1, 2)):
             links.append((min(a, b), max(a, b), "peer"))
+    if rich:
+        # guarantee a peering link between two non-core ASes and a parallel (doubled) core/parent link
+        nc = [x for x in range(1, k + 1) if not cores[x - 1]]
+        if len(nc) >= 2 and not any(t == "peer" and not cores[a - 1] and not cores[b - 1] for a, b, t in links):
+            for _ in range(20):
+                a = nc[rng.below(len(nc))]
+                b = nc[rng.below(len(nc))]
+                if a != b and not any({x, y} == {a, b} for x, y, t in links):
+                    links.append((min(a, b), max(a, b), "peer"))
+                    break
+        base = [l for l in links if l[2] != "peer"]
+        if base and len(set(base)) == len(base):
+            links.append(base[rng.below(len(base))])
     assert valid_structure(k, isds, cores, links)
     return decorate(name, isds, cores, links, variant=rng.below(3))
 
